@@ -217,8 +217,14 @@ if __name__ == '__main__':
                 print(f"FAILED {r['id']:40s} " + '; '.join(x for x in r['detail'].split('; ') if 'silent' not in x))
         print(f'{len(rs)} silent variants x all properties, {bad} failed')
         sys.exit(2 if bad else 0)
-    props = sys.argv[1:] or None
-    rs = run(props)
+    if sys.argv[1:2] == ['--only']:
+        ids = set(sys.argv[2:])
+        cat = [v for v in load_catalogue() if v['id'] in ids]
+        with ProcessPoolExecutor(max_workers=min(16, max(1, len(cat)))) as ex:
+            rs = list(ex.map(run_variant, [(v, str(repo_root())) for v in cat]))
+    else:
+        props = sys.argv[1:] or None
+        rs = run(props)
     bad = 0
     for r in rs:
         print(f"{r['status']:8s} {r['expect']:6s} {r['id']:40s} {r['detail']}")
